@@ -111,6 +111,12 @@ fn tok_sexp(t: &sakuramml::token::Token) -> String {
     let kids = match &t.children { Some(c) => format!("({})", c.iter().map(tok_sexp).collect::<Vec<_>>().join(" ")), None => "_".to_string() };
     format!("({:?} {} {} ({}) {})", t.ttype, t.value_i, t.lineno, t.data.iter().map(sv_sexp).collect::<Vec<_>>().join(" "), kids)
 }
+/// one token for the script tie: `(Type value_i tag line S|_ (data…) (children…)|_)` with S = value_s in hex
+fn stok_sexp(t: &sakuramml::token::Token) -> String {
+    let kids = match &t.children { Some(c) => format!("({})", c.iter().map(stok_sexp).collect::<Vec<_>>().join(" ")), None => "_".to_string() };
+    let vs = match &t.value_s { Some(s) => format!("S{}", if s.is_empty() { "~".to_string() } else { hex(s.as_bytes()) }), None => "_".to_string() };
+    format!("({:?} {} {} {} {} ({}) {})", t.ttype, t.value_i, t.tag, t.lineno, vs, t.data.iter().map(sv_sexp).collect::<Vec<_>>().join(" "), kids)
+}
 fn sv_sexp(v: &SValue) -> String {
     match v {
         SValue::Int(i) => format!("I{}", i),
@@ -298,6 +304,23 @@ fn handle(line: &str) -> String {
                 if song.use_key_shift { 1 } else { 0 }, song.v_add, song.q_add, song.flags.measure_shift, song.timesig_frac, song.timesig_deno, song.tempo);
             let ties: Vec<String> = song.tracks.iter().map(|t| format!("{}:{}:{}", t.tie_mode as isize, t.tie_value, t.bend_range)).collect();
             format!("ok toks={} tracks={} state={} cur={} tb={} pf={} seed={} song={} ties={} log={}", hex(toks.iter().map(tok_sexp).collect::<Vec<_>>().join(" ").as_bytes()), tracks_str(&song), st.join(";"), song.cur_track, song.timebase, song.play_from, song.rand_seed, sg, ties.join(";"), if log.is_empty() { "~".to_string() } else { hex(log.as_bytes()) })
+        }
+        "scriptrun" => {
+            // lexer + runner on a script program: tokens (with tag and value_s), the function table, the log, the sounded note numbers
+            let src = unhex_s(a[1]);
+            let mut song = Song::new();
+            let toks = lexer::lex(&mut song, &src, 0);
+            let funcs: Vec<String> = song.functions.iter().map(|f| format!("(fn S{} ({}) ({}) ({}))", hex(f.name.as_bytes()),
+                f.arg_names.iter().map(|n| format!("S{}", hex(n.as_bytes()))).collect::<Vec<_>>().join(" "),
+                f.arg_def_values.iter().map(sv_sexp).collect::<Vec<_>>().join(" "),
+                f.tokens.iter().map(stok_sexp).collect::<Vec<_>>().join(" "))).collect();
+            runner::exec(&mut song, &toks);
+            let log = song.get_logs_str();
+            let notes: Vec<String> = song.tracks.iter().flat_map(|t| t.events.iter()).filter(|e| e.etype == EventType::NoteOn).map(|e| e.v1.to_string()).collect();
+            format!("ok toks={} funcs={} notes={} stack={} log={}", hex(toks.iter().map(stok_sexp).collect::<Vec<_>>().join(" ").as_bytes()),
+                if funcs.is_empty() { "~".to_string() } else { hex(funcs.join(" ").as_bytes()) },
+                if notes.is_empty() { "~".to_string() } else { notes.join(",") }, song.stack.len(),
+                if log.is_empty() { "~".to_string() } else { hex(log.as_bytes()) })
         }
         "ping" => "ok pong".to_string(),
         _ => "bad-op".to_string(),
